@@ -6,24 +6,24 @@ CONSTANTS
   CfgSet <- DgCfgs
   SameCfg = TRUE
   Openers = {"A"}
-  MaxOpens = 0
+  MaxOpens = 1
   Ids = {1}
   Hosts = {"h0"}
-  MaxWrites = 0
+  MaxWrites = 1
   Lens = {1}
   ReadMax = {4}
   Closers = {}
   MuxDroppers = {}
-  DgSenders = {"A"}
-  MaxDgrams = 3
+  DgSenders = {"A", "B"}
+  MaxDgrams = 2
   Binders = {}
   MaxBinds = 0
   Faults = {}
   AdvMsgs = {}
   MaxAdv = 0
   Bridgers = {}
-  MaxHandles = 2
-  MaxCtr = 3
+  MaxHandles = 1
+  MaxCtr = 5
 VIEW View
 CONSTRAINT Bound
 INVARIANTS NoViolation TypeOK AckSound QueueBound InitialCredit ExactlyOne TargetCarried BoundedRetry Released DoneResolved
